@@ -294,7 +294,7 @@ impl Check for C14 {
         "for every entry of GAMES (iterated at run time) x port given/omitted x 7 server behaviours (valid with main / dedicated / foreign app id, players silent, rules silent, malformed, total silence) x states: path A = query_with_timeout_and_extra_settings(definition), path B = the game's module function (found through the repository's game_query_mod! tables by pretty name), path C = the protocol's query with the definition's engine/version, default port and request settings — all against the same scripted server. Oracle: identical transport logs (destination, request bytes, order) and equal results (Ok compared as JSON after projecting Valve responses to game::Response; Err by kind). Eco: real loopback listeners on the candidate ports show where each path connects. non-trivial = all three paths ran and agreed; distinct by (game, behaviour, port, state)".into()
     }
     fn assumptions(&self) -> Vec<String> { vec!["an entry whose module cannot be found by pretty name is reported as unmapped (inconclusive for that entry only)".into(), "paths run with timeout settings None because the module functions offer nothing else".into()] }
-    fn total_cases(&self, tier: Tier) -> u64 { 1 + game_ids().len() as u64 * 7 * 2 * tier.pick(6, 80) }
+    fn total_cases(&self, tier: Tier) -> u64 { 1 + game_ids().len() as u64 * 7 * 2 * tier.pick(18, 80) }
     fn exhaustive(&self, _tier: Tier) -> Option<bool> { Some(true) }
     fn max_workers(&self, _tier: Tier) -> usize { 16 }
     fn run_case(&mut self, cx: &mut Cx) {
